@@ -273,4 +273,4 @@ def run(spec, ctx):
             else:
                 run_tdms_case(ctx, idx)
         except Exception as exc:
-            ctx.error(f"case {idx}", exc)
+            ctx.raised("c08.no_exception", f"case {idx}", exc)
